@@ -96,12 +96,15 @@ class Parser:
 
         return Lark.open("mapfile.lark", rel_to=__file__, parser="lalr", **extra_args)
 
-    def _get_include_filename(self, line: str) -> str:
+    def _get_include_filename(self, line: str) -> str | None:
         if "#" in line:
             # remove any comments on the same line
             line = line.split("#")[0]
 
         include_pairs = line.split()
+        if len(include_pairs) < 2:
+            # an INCLUDE without a filename is reported by the parser as a syntax error
+            return None
         if len(include_pairs) > 2:
             log.warning(
                 "Multiple include files have been found on the same line. "
@@ -126,6 +129,8 @@ class Parser:
                     raise ValueError("Maximum nested include exceeded! (MaxNested=5)")
 
                 inc_file_path = self._get_include_filename(l)
+                if inc_file_path is None:
+                    continue
 
                 if not os.path.isabs(inc_file_path):
                     inc_file_path = os.path.abspath(
